@@ -9,6 +9,7 @@ mod enc_x86;
 mod hist;
 mod panics;
 mod rng;
+mod selfuse;
 mod sigs;
 mod threads;
 mod util;
@@ -29,6 +30,7 @@ fn main() {
         "enc-arm" => enc_arm::run(&a, &mut out),
         "hist" => hist::run(&a, &mut out),
         "cycles" => cycles::run(&a, &mut out),
+        "selfuse" => selfuse::run(&a, &mut out),
         "counter" => counter::run(&a, &mut out),
         "alloc" => alloc::run(&a, &mut out),
         "threads" => threads::run(&a, &mut out),
